@@ -43,7 +43,7 @@ ASSUMPTIONS = ['the value of a cdef "#define NAME NUMBER" is one token (a sign b
                'the tokeniser of vlib/cdefdeco.py splits generated cdef lines exactly at C token boundaries']
 BUDGET = {'quick': 1600, 'thorough': 100000}
 MIN_PER_SHARD = 50
-TIME = {'quick': 20, 'thorough': 800}
+TIME = {'quick': 15, 'thorough': 800}
 
 FEATURES = cdefgen.DEFAULT_FEATURES | frozenset(['anon', 'anon_td', 'file', 'gvar_any', 'variadic'])
 
